@@ -1,8 +1,8 @@
 """C20 - Temporary settings are always restored.
 
-Path rules on the CFG of `Settings.context` (normal and exceptional continuation of the `yield`),
-origin rules for snapshot / apply / restore, a parameter<->attribute table, and two package-wide
-who-may-read / who-may-write scans (each with a positive fixture that must match on every run).
+`Settings.context` is interpreted abstractly (Y-sem: every subset of the named settings, every way of leaving the with-body, nesting);
+a parameter<->attribute table, and two package-wide who-may-read / who-may-write scans (each with a positive fixture that must
+match on every run).
 """
 
 from __future__ import annotations
@@ -10,21 +10,17 @@ from __future__ import annotations
 import ast
 import os
 
-from ..cfg import cfg_of
 from ..pm import AnalysisError, Program, dotted, unparse
 from ..report import VERIF, Check
-from ..sym import Resolver, Term, show, walk
-from .common import loc, strip
+from .common import loc
 
 EXPLANATION = (
     "static analysis of Settings.context, Settings.__init__, Op.str, Op.is_close and a scan of every module of the "
     "package: Y-sem - the context manager is interpreted abstractly (sa/absexec.py) on a settings object with symbolic attribute values "
     "for every subset of the named settings (also requesting the values already held), a with-body that assigns every setting, and "
     "every way of leaving it (normal, Exception, KeyboardInterrupt, GeneratorExit) plus nested contexts: named settings restored, "
-    "others untouched, values inside, generator protocol; in addition, where the usual shape is recognised, "
-    "package: CFG path rules (snapshot before first write; every normal and exceptional continuation of the single "
-    "yield passes the restore loop; restore ranges over exactly the applied keys and reads the snapshot), the "
-    "context-parameter <-> Settings attribute table, no early-bound read of a setting (default arguments, class "
+    "others untouched, values inside, generator protocol (try/finally and contextlib.ExitStack callbacks are both modelled); the "
+    "context-parameter <-> Settings attribute table (derived by a probe run), no early-bound read of a setting (default arguments, class "
     "bodies, module level), no write to the settings singleton outside Settings"
 )
 ASSUMPTIONS = [
@@ -34,22 +30,6 @@ ASSUMPTIONS = [
 FLOORS = {"Y-sem": 6, "Y1": 1, "Y5": 8, "Y6": 2, "Y7": 2, "Y8": 3}
 
 SPEC_SETTINGS = ["float_type", "decimals", "atol", "rtol", "alias", "logger", "factory_manager"]
-
-
-def is_self_setattr(t: Term) -> bool:
-    return t[0] == "call" and t[1] == ("global", "setattr") and len(t[2]) == 3 and t[2][0] == ("param", "self")
-
-
-def is_snapshot(t: Term) -> bool:
-    """vars(self).copy() / dict(vars(self)) / self.__dict__.copy() / copy.copy(vars(self))."""
-    v = ("call", ("global", "vars"), (("param", "self"),), ())
-    d = ("attr", ("param", "self"), "__dict__")
-    for src in (v, d):
-        if t == ("call", ("attr", src, "copy"), (), ()):
-            return True
-        if t[0] == "call" and t[1] in (("global", "dict"), ("global", "copy.copy"), ("global", "copy.deepcopy")) and t[2] == (src,):
-            return True
-    return False
 
 
 def run(check: Check) -> None:
@@ -70,145 +50,6 @@ def decorator_rule(check: Check) -> None:
             [dotted(x.func if isinstance(x, ast.Call) else x) or "" for x in fn.node.decorator_list]]
     check.require(any(d in ("contextlib.contextmanager",) for d in deco), "Y1", "Settings.context/decorator",
                   f"context is a contextlib.contextmanager generator (decorators: {deco})", loc(fn))
-
-
-def context_rules(check: Check) -> None:
-    p = check.program
-    fn = p.func("Settings.context")
-    check.analysed(fn)
-    r = Resolver(p, fn)
-    cfg = r.cfg
-    deco = [p.resolve_global(d, fn.module) if "." not in d else d for d in
-            [dotted(x.func if isinstance(x, ast.Call) else x) or "" for x in fn.node.decorator_list]]
-    check.require(any(d in ("contextlib.contextmanager",) for d in deco), "Y1", "Settings.context/decorator",
-                  f"context is a contextlib.contextmanager generator (decorators: {deco})", loc(fn))
-    yields = [n for n in cfg.stmt_nodes() if not n.copy and any(isinstance(x, (ast.Yield, ast.YieldFrom))
-              for e in cfg.exprs_of(n) for x in ast.walk(e))]
-    if len(yields) != 1:
-        check.violation("Y3", "Settings.context/yield", f"expected exactly one yield, found {len(yields)}", loc(fn))
-        return
-    y = yields[0]
-
-    # all setattr(self, k, v) sites (any finally copy)
-    sets = []
-    for n in cfg.stmt_nodes():
-        for c in cfg.calls_in(n):
-            t = r.term(c, n)
-            if is_self_setattr(t):
-                sets.append((n, t))
-    after_yield = cfg.reach([s_ for s_, _ in y.succ])
-    applies = [(n, t) for n, t in sets if n not in after_yield]
-    restores = [(n, t) for n, t in sets if n in after_yield]
-    if not applies or not restores:
-        raise AnalysisError("Settings.context: apply/restore setattr sites not recognised")
-
-    # Y2 snapshot before the first write
-    snaps = [n for n in cfg.stmt_nodes() if n.kind == "stmt" and isinstance(n.ast, (ast.Assign, ast.AnnAssign)) and
-             n.ast.value is not None and is_snapshot(r.term(n.ast.value, n))]
-    ok = bool(snaps) and all(cfg.must_precede(snaps, n) for n, _ in applies)
-    # and no apply site can run before it (loop heads of the apply loop come after)
-    check.require(ok, "Y2", "Settings.context/snapshot",
-                  "a copy of vars(self) is taken on every path before the first setattr(self, ...)", loc(fn, snaps[0] if snaps else fn.node))
-    snap_terms = {r.term(n.ast.value, n) for n in snaps}  # type: ignore[union-attr]
-
-    # Y3 every continuation of the yield passes a restore loop
-    restore_heads = []
-    for n, _ in restores:
-        hs = cfg.enclosing_loops(n)
-        if hs:
-            restore_heads.append(hs[-1])
-    has_exc_edge = any(l == "exc" for _, l in y.succ)
-    normal_ok = bool(restore_heads) and cfg.must_follow(y, restore_heads, cfg.exit)
-    exc_ok = has_exc_edge and bool(restore_heads) and cfg.must_follow(y, restore_heads, cfg.raise_exit)
-    check.require(normal_ok, "Y3", "Settings.context/restore-normal",
-                  "leaving the context normally always reaches the restore loop", loc(fn, y))
-    check.require(exc_ok, "Y3", "Settings.context/restore-exception",
-                  "an exception thrown in at the yield always reaches the restore loop before propagating"
-                  if exc_ok else "an exception thrown in at the yield can leave the generator without restoring "
-                  "(the yield is not protected by try/finally)", loc(fn, y))
-    # Y4 same keys, values from the snapshot
-    def loop_iter_term(n):
-        hs = cfg.enclosing_loops(n)
-        if not hs:
-            return None
-        h = hs[-1]
-        it = [q for q, _ in h.pred if q.kind == "iter"]
-        if not it:
-            return None
-        t_ = r.term(h.ast.iter, it[0])  # type: ignore[union-attr]
-        # iterating a dict, its keys() or its items() ranges over the same keys
-        while t_[0] == "call" and t_[1][0] == "attr" and t_[1][2] in ("items", "keys") and not t_[2]:
-            t_ = t_[1][1]
-        if t_[0] == "call" and t_[1][0] == "global" and t_[1][1] in ("list", "tuple", "sorted", "iter") and len(t_[2]) == 1:
-            t_ = t_[2][0]
-        return t_
-
-    apply_iters = {loop_iter_term(n) for n, _ in applies}
-    restore_iters = {loop_iter_term(n) for n, _ in restores}
-    check.require(len(apply_iters) == 1 and apply_iters == restore_iters and None not in apply_iters, "Y4",
-                  "Settings.context/keys", "the restore loop ranges over the same key collection as the apply loop"
-                  if apply_iters == restore_iters else
-                  f"restore ranges over {[show(t) if t else None for t in restore_iters]}, apply over "
-                  f"{[show(t) if t else None for t in apply_iters]}", loc(fn, restores[0][0]))
-    good = True
-    why = ""
-    for n, t in restores:
-        key, val = t[2][1], t[2][2]
-        if not (val[0] == "sub" and val[1] in snap_terms and val[2] == key):
-            good = False
-            why = f"restored value is {show(val)}"
-    check.require(good, "Y4", "Settings.context/restore-value",
-                  "each restored value is snapshot[key] for the key being restored" if good else why, loc(fn, restores[0][0]))
-    # every named setting is restored, whatever it holds at that moment: nothing inside the restore loop decides whether to restore
-    cond = []
-    for n, t in restores:
-        hs_ = cfg.enclosing_loops(n)
-        body_ = cfg.lexical_body(hs_[-1]) if hs_ else set()
-        for g, pol, gn in cfg.must_guards(n):
-            if gn in body_:
-                gt = r.term(g, gn)
-                harmless = gt[0] == "cmp" and gt[1] == ("in",) and gt[2][0] == t[2][1] and gt[2][1] in snap_terms and pol
-                if not harmless:
-                    cond.append((n, unparse(g)))
-    check.require(not cond, "Y4", "Settings.context/restore-unconditional",
-                  "inside the restore loop nothing decides whether a named setting is restored" if not cond else
-                  f"a named setting is restored only when `{cond[0][1][:80]}`: whether the previous value comes back depends on what the "
-                  "setting holds on exit, so a direct assignment inside the context survives it", loc(fn, cond[0][0] if cond else fn.node))
-    # Y4b: which settings are applied/restored is decided by the arguments alone (named = not None), never by the current values
-    coll_names = set()
-    for n, _ in applies + restores:
-        for h_ in cfg.enclosing_loops(n):
-            for x in ast.walk(h_.ast.iter):  # type: ignore[union-attr]
-                if isinstance(x, ast.Name):
-                    coll_names.add(x.id)
-    snap_names = {t_.id for n in snaps for t_ in (n.ast.targets if isinstance(n.ast, ast.Assign) else [n.ast.target]) if isinstance(t_, ast.Name)}
-    offending = []
-    for n in cfg.stmt_nodes():
-        a = n.ast
-        if isinstance(a, (ast.Assign, ast.AnnAssign)) and a.value is not None:
-            tg = a.targets if isinstance(a, ast.Assign) else [a.target]
-            if any(isinstance(t_, ast.Name) and t_.id in coll_names for t_ in tg):
-                for comp in ast.walk(a.value):
-                    if isinstance(comp, (ast.DictComp, ast.ListComp, ast.SetComp, ast.GeneratorExp)):
-                        for g in comp.generators:
-                            for cond in g.ifs:
-                                names = {x.id for x in ast.walk(cond) if isinstance(x, ast.Name)}
-                                if names & (snap_names | {"self"}) or any(isinstance(x, ast.Call) and unparse(x.func) in ("vars", "getattr") for x in ast.walk(cond)):
-                                    offending.append((n, unparse(cond)))
-        for c_ in cfg.calls_in(n):
-            if isinstance(c_.func, ast.Attribute) and isinstance(c_.func.value, ast.Name) and c_.func.value.id in coll_names and c_.func.attr in ("pop", "popitem", "clear") \
-                    and not (isinstance(a, ast.Assign) and isinstance(a.targets[0], ast.Subscript)):
-                gs = [unparse(g) for g, pol, gn in cfg.must_guards(n)]
-                if any(sn in g_ for g_ in gs for sn in snap_names | {"self."}):
-                    offending.append((n, f"{unparse(c_)} under {gs}"))
-    check.require(not offending, "Y4", "Settings.context/named-keys",
-                  "the settings applied and restored are exactly the ones named in the call (selected without looking at current values)" if not offending else
-                  f"the set of settings to restore is filtered by their current values (`{offending[0][1][:80]}`): a named setting that already holds the requested "
-                  "value is not restored, so a direct assignment inside the context leaks out", loc(fn, offending[0][0] if offending else fn.node))
-    keys_ok = all(t[2][1] != t[2][2] and t[2][1][0] in ("unpack", "elem") for _, t in applies)
-    restore_keys_ok = all(t[2][1][0] in ("unpack", "elem") for _, t in restores)
-    check.require(keys_ok, "Y4", "Settings.context/apply", "apply loop sets attribute `key` to `value` of each named setting",
-                  loc(fn, applies[0][0]))
 
 
 def context_params(fn, program=None) -> tuple[list[str], dict[str, str]]:
